@@ -51,7 +51,9 @@ ASSUMPTIONS = [
 ]
 
 WAYS = ["path-str", "path-Path", "path-DirEntry", "path-fspath-object", "file-URL",
-        "text-stream", "binary-file", "BytesIO", "loads-str", "loads-bytes"]
+        "text-stream", "binary-file", "BytesIO", "loads-str", "loads-bytes",
+        "text-stream-after-readline", "binary-file-after-readline"]
+HEADER = "/* header record that the caller reads off first */\n"
 
 
 class FsPath:
@@ -172,6 +174,23 @@ def load_all_ways(label, data):
                 elif way == "binary-file":
                     with open(path, "rb") as f:
                         m = pvl.load(f, lexer_fn=lf)
+                elif way.endswith("-after-readline"):
+                    # the caller has consumed a header line: load() must go on from
+                    # the caller's position, whatever the stream has buffered
+                    hpath = path + ".hdr"
+                    with open(hpath, "wb") as f:
+                        f.write(HEADER.encode("ascii") + data)
+                    if way.startswith("text"):
+                        with open(hpath, "r", encoding="utf-8", newline="") as f:
+                            try:
+                                f.readline()
+                            except UnicodeDecodeError:
+                                continue     # the caller could not even read the header
+                            m = pvl.load(f, lexer_fn=lf)
+                    else:
+                        with open(hpath, "rb") as f:
+                            f.readline()
+                            m = pvl.load(f, lexer_fn=lf)
                 elif way == "BytesIO":
                     m = pvl.load(io.BytesIO(data), lexer_fn=lf)
                 elif way == "loads-str":
